@@ -95,6 +95,8 @@ func setupGenStubs() map[string]string {
 		"Gen_ClientIP.tla":   "---- MODULE Gen_ClientIP ----\nGenMaxLines == 1\nGenMaxEntries == 1\nGenMaxPrefix == 1\nGenWithEmpty == TRUE\n====\n",
 		"Gen_ObsServe.tla":   "---- MODULE Gen_ObsServe ----\nGenTable == << [m |-> \"GET\", pat |-> <<\"/\">>, opt |-> \"none\"] >>\nGenCfg == [noMethod |-> FALSE, autoOptions |-> FALSE]\nGenHost == <<\"a\">>\n====\n",
 		"Gen_ObsMatch.tla":   "---- MODULE Gen_ObsMatch ----\nGenPool == << <<\"/\">> >>\nGenTables == << {1} >>\n====\n",
+		"Gen_Radix.tla":      "---- MODULE Gen_Radix ----\nGenPool == << <<\"/\">> >>\nGenMaxRoutes == 1\n====\n",
+		"Gen_Lookup.tla":     "---- MODULE Gen_Lookup ----\nGenPool == << <<\"/\">> >>\nGenPaths == << <<\"/\">> >>\nGenMaxTab == 1\nGenExtraTables == {}\nGenFixes == {}\n====\n",
 		"trace.ndjson":       "",
 		"obs.ndjson":         "",
 	}
